@@ -76,7 +76,10 @@ def famkind(fam):
 
 
 def envkey(cfg):
-    via = 'row' if cfg['via'] in ('func', 'Transform') and cfg['method'] in HALF_METHODS else 'img'
+    if cfg['method'] in HALF_METHODS:
+        via = 'rows' if cfg['via'] == 'func' else 'image'
+    else:
+        via = 'image'
     return '%s|%s|%s|%s|%s' % (cfg['dir'], cfg['method'], optkey(cfg['opts']), famkind(cfg['fam']), via)
 
 
@@ -125,8 +128,8 @@ def row_amps(rows):
 
 
 def make_data(cfg):
-    """(input, truth, rpix) for a configuration.  rpix: radius in pixels of
-    every element (used for the judged region)."""
+    """(input, truth, rpix, xpix) for a configuration.  rpix / xpix: radius /
+    distance from the symmetry axis, in pixels, of every element."""
     n, rows, d = cfg['n'], cfg['rows'], cfg['dr']
     F = scaled_family(cfg)
     if cfg['via'] == 'func':
@@ -135,6 +138,7 @@ def make_data(cfg):
         src = amp * F.source(r)[None, :]
         prj = amp * F.proj(r)[None, :]
         rpix = np.broadcast_to(np.arange(n, dtype=float)[None, :], (rows, n))
+        xpix = rpix
     else:
         H, W = rows, 2 * n - 1
         zi = np.arange(H) - (H - 1) / 2.0
@@ -154,13 +158,14 @@ def make_data(cfg):
                 return np.hstack([right[:, :0:-1], right])
             _IMG_CACHE[key] = (unfold(sq), unfold(pq))
         src, prj = _IMG_CACHE[key]
+        xpix = np.abs(X) / d + 0 * Z
         rpix = np.hypot(X, Z) / d
         if cfg['method'] in HALF_METHODS:
             # row-wise methods: the judged region is defined per row
-            rpix = np.abs(X) / d + 0 * Z
+            rpix = xpix
     if cfg['dir'] == 'inverse':
-        return prj, src, rpix
-    return src, prj, rpix
+        return prj, src, rpix, xpix
+    return src, prj, rpix, xpix
 
 
 _IMG_CACHE = {}
@@ -171,6 +176,13 @@ def run_method(cfg, data):
     import abel
     m, direction, opts, d = cfg['method'], cfg['dir'], dict(cfg['opts']), cfg['dr']
     pass_dr = cfg.get('pass_dr', True)
+    if 'reg' in opts and isinstance(opts['reg'], list):
+        opts['reg'] = tuple(opts['reg'])            # JSON round trip
+    if opts.get('r') == 'grid':                     # direct: explicit radial grid instead of dr
+        opts['r'] = np.arange(cfg['n']) * d
+        pass_dr, d = False, 1
+    if opts.get('origin') == 'tuple':               # rbasex: explicit (row, column) of the centre
+        opts['origin'] = ((cfg['rows'] - 1) // 2, cfg['n'] - 1)
     with warnings.catch_warnings(), np.errstate(all='ignore'), _quiet():
         warnings.simplefilter('ignore')
         if cfg['via'] == 'func':
@@ -203,6 +215,8 @@ def run_method(cfg, data):
                 kw['backend'] = 'python'
             if m not in ('rbasex', 'linbasex') and (pass_dr or d != 1):
                 kw['dr'] = d
+            if m == 'linbasex':
+                kw.pop('dr', None)
             T = abel.Transform(data, direction=direction, method=m, transform_options=kw, verbose=False)
             out = np.asarray(T.transform, dtype=float)
             return out, T
@@ -217,26 +231,43 @@ def run_method(cfg, data):
         raise ValueError(cfg['via'])
 
 
-def unit_scale(cfg):
-    """rbasex and linbasex have no dr option: they work in pixel units, so the
-    inverse of physical data is physical/dr... the sweep always gives them
-    dr = 1."""
-    return 1.0
+def judged(cfg, rpix, xpix):
+    """mask of the pixels that are judged ("away from the symmetry axis and the
+    outer edge"): AXIS_EXCL <= |x| (distance from the axis), r <= n-1-edge(n);
+    whole-image methods also r >= AXIS_EXCL; linbasex divides its Newton-sphere
+    intensities by 4 pi r^2 when it draws the image, so its image is judged
+    only for r >= 0.3 (n-1)."""
+    n = cfg['n']
+    m = (xpix >= AXIS_EXCL) & (rpix <= n - 1 - edge(n))
+    if cfg['method'] in FULL_METHODS:
+        m &= rpix >= AXIS_EXCL
+    if cfg['method'] == 'linbasex':
+        m &= rpix >= 0.3 * (n - 1)
+    return m
 
 
-def evaluate(cfg, want_arrays=False):
-    """run one configuration; returns dict(err, pix, got, want, peak, shape)"""
-    data, truth, rpix = make_data(cfg)
+def _run(cfg):
+    """-> (result, truth, rpix, xpix, extra) with result/truth of equal shape"""
+    data, truth, rpix, xpix = make_data(cfg)
     res = run_method(cfg, np.array(data, dtype=float, copy=True))
     extra = None
     if isinstance(res, tuple):
         res, extra = res
+    if cfg['opts'].get('out') == 'fold':
+        n = cfg['n']
+        h = (cfg['rows'] + 1) // 2
+        truth, rpix, xpix = truth[:h, n - 1:], rpix[:h, n - 1:], xpix[:h, n - 1:]
+    return res, truth, rpix, xpix, extra
+
+
+def evaluate(cfg, want_arrays=False):
+    """run one configuration; returns dict(err, pix, got, want, peak, ...)"""
+    res, truth, rpix, xpix, extra = _run(cfg)
     if res.shape != truth.shape:
         return dict(err=float('inf'), pix=None, got=None, want=None, peak=None,
                     shape_mismatch=(list(res.shape), list(truth.shape)))
     peak = float(np.max(np.abs(truth)))
-    n = cfg['n']
-    mask = (rpix >= AXIS_EXCL) & (rpix <= n - 1 - edge(n))
+    mask = judged(cfg, rpix, xpix)
     E = np.where(mask, np.abs(res - truth), 0.0) / peak
     E = np.where(np.isfinite(E), E, np.inf)
     k = int(np.argmax(E))
@@ -249,19 +280,219 @@ def evaluate(cfg, want_arrays=False):
 
 
 def region_error(cfg, lo_phys, hi_phys):
-    """max relative error over lo <= r (physical) <= hi — for the refinement clause"""
-    data, truth, rpix = make_data(cfg)
-    res = run_method(cfg, np.array(data, dtype=float, copy=True))
-    if isinstance(res, tuple):
-        res = res[0]
+    """max relative error over the judged pixels with lo <= |x|, r <= hi in
+    *physical* units — the refinement clause compares the same physical region
+    on a coarse and a fine grid"""
+    res, truth, rpix, xpix, extra = _run(cfg)
+    if res.shape != truth.shape:
+        return float('inf'), None, None, None
     peak = float(np.max(np.abs(truth)))
-    rp = rpix * cfg['dr']
-    mask = (rp >= lo_phys - 1e-9) & (rp <= hi_phys + 1e-9)
+    d = cfg['dr']
+    mask = judged(cfg, rpix, xpix) & (xpix * d >= lo_phys - 1e-9) & (rpix * d <= hi_phys + 1e-9)
     E = np.where(mask, np.abs(res - truth), 0.0) / peak
     E = np.where(np.isfinite(E), E, np.inf)
     k = int(np.argmax(E))
     pix = np.unravel_index(k, E.shape)
     return float(E[pix]), [int(pix[0]), int(pix[1])], float(res[pix]), float(truth[pix])
+
+
+# ---------------------------------------------------------------------------
+# the universe of configurations
+# ---------------------------------------------------------------------------
+
+A3 = [0.0, 0.9553166181245093, float(np.pi / 2)]     # 0, magic angle, 90 degrees
+
+OPTIONS = {
+    'inverse': {
+        'basex': [{}, {'sigma': 2.0}, {'sigma': 3.0}, {'reg': 1.0}, {'reg': 100.0}, {'correction': False},
+                  {'sigma': 2.0, 'reg': 10.0}],
+        'daun': [{'degree': 0}, {'degree': 1}, {'degree': 2}, {'degree': 3},
+                 {'degree': 0, 'reg': 1.0}, {'degree': 1, 'reg': ('diff', 1.0)}, {'degree': 1, 'reg': ('L2', 1.0)},
+                 {'degree': 2, 'reg': ('L2c', 1.0)}, {'degree': 3, 'reg': ('diff', 10.0)},
+                 {'degree': 1, 'reg': 'nonneg'}],
+        'direct': [{}, {'correction': False}, {'r': 'grid'}],
+        'hansenlaw': [{'hold_order': 0}, {'hold_order': 1}],
+        'onion_bordas': [{}, {'shift_grid': False}],
+        'onion_peeling': [{}], 'two_point': [{}], 'three_point': [{}],
+        'linbasex': [{}, {'legendre_orders': [0, 2, 4], 'proj_angles': A3}, {'proj_angles': A3},
+                     {'radial_step': 2}, {'legendre_orders': [0]}],
+        'rbasex': [{'order': 0}, {}, {'order': 4}, {'order': 2, 'odd': True}, {'reg': ('L2', 10.0)},
+                   {'reg': ('diff', 10.0)}, {'reg': ('SVD', 0.05)}, {'reg': 'pos'}, {'origin': 'tuple'}],
+    },
+    'forward': {
+        'basex': [{}, {'sigma': 2.0}, {'correction': False}],
+        'daun': [{'degree': 0}, {'degree': 1}, {'degree': 2}, {'degree': 3}],
+        'direct': [{}, {'correction': False}, {'r': 'grid'}],
+        'hansenlaw': [{'hold_order': 0}, {'hold_order': 1}],
+        'rbasex': [{'order': 0}, {}, {'order': 4}, {'order': 2, 'odd': True}, {'origin': 'tuple'}, {'out': 'fold'}],
+    },
+}
+
+SIZES = [25, 51, 101, 201, 300]
+SIGMAS = [6.0, 9.0, 15.0, 30.0]
+PAIRS2 = [(6.0, 9.0), (6.0, 15.0), (9.0, 30.0)]
+DRS = [1.0, 0.5, 0.1, 2.5]
+ROWS = [1, 2, 7]
+
+
+def gauss(s):
+    return dict(family='gauss', terms=[[1.0, float(s)]])
+
+
+def gauss2(s1, s2):
+    return dict(family='gauss', terms=[[1.0, float(s1)], [0.6, float(s2)]])
+
+
+def bump(n, p, frac=0.8):
+    return dict(family='bump', R=float(frac * (n - 1)), p=int(p))
+
+
+def ring(n, w, k):
+    return dict(family='ring', r0=0.5 * (n - 1), w=float(w), k=int(k), Rm=float(n - 1))
+
+
+def admissible(fam, n):
+    """adequately sampled and contained in the image"""
+    F = pairs.from_spec(fam)
+    if fam['family'] == 'gauss':
+        return n - 1 >= 4 * F.extent()
+    if fam['family'] == 'ring':
+        return F.r0 >= 4 * F.w and F.r0 + 4 * F.w <= n - 1 + 1e-9
+    return F.R <= n - 1
+
+
+def families_1d(n):
+    out = [gauss(s) for s in SIGMAS] + [gauss2(a, b) for a, b in PAIRS2] + [bump(n, p) for p in (2, 3, 4)]
+    return [f for f in out if admissible(f, n)]
+
+
+RING_W = {51: [6.0], 101: [6.0, 9.0, 12.0], 201: [9.0, 15.0, 25.0], 300: [12.0, 25.0]}
+
+
+def families_2d(n, big=False):
+    out = []
+    adm = [s for s in SIGMAS if admissible(gauss(s), n)]
+    if adm:
+        out.append(gauss(adm[-1]))
+        if len(adm) > 1 and not big:
+            out.append(gauss(adm[0]))
+    out.append(bump(n, 3))
+    if not big:
+        out.append(bump(n, 2))
+    for w in RING_W.get(n, []):
+        for k in (0, 2, 4):
+            out.append(ring(n, w, k))
+    return [f for f in out if admissible(f, n)]
+
+
+def compatible(method, opts, fam):
+    k = fam.get('k', 0)
+    if method == 'rbasex':
+        return opts.get('order', 2) >= k
+    if method == 'linbasex':
+        return max(opts.get('legendre_orders', [0, 2])) >= k
+    return True
+
+
+def universe(direction, sizes=SIZES):
+    """every configuration the sweeps may visit (rows, dr and via are filled in
+    by assign()).  The calibration visits all of them."""
+    out = []
+    for method, optl in OPTIONS[direction].items():
+        for opts in optl:
+            for n in sizes:
+                slow = ((opts.get('reg') in ('nonneg', 'pos')) and n > 101)
+                if slow:
+                    continue
+                if method in HALF_METHODS:
+                    for fam in families_1d(n):
+                        out.append(dict(dir=direction, method=method, via='func', opts=opts, fam=fam, n=n))
+                    if n <= 201:
+                        default_only = n >= 201
+                        if default_only and opts != optl[0]:
+                            continue
+                        for fam in families_2d(n, big=default_only):
+                            out.append(dict(dir=direction, method=method, via='Transform', opts=opts, fam=fam, n=n))
+                else:
+                    if n > 201 and opts != optl[1 if method == 'rbasex' else 0]:
+                        continue
+                    for fam in families_2d(n, big=n > 201):
+                        if compatible(method, opts, fam):
+                            out.append(dict(dir=direction, method=method, via='img', opts=opts, fam=fam, n=n))
+    return out
+
+
+def assign(cfg, rng):
+    """fill in the free choices (rows, dr, via for whole-image methods, whether
+    dr is passed when it is 1) — none of them changes the relative error
+    beyond rounding (linearity, row independence, dr scaling)."""
+    c = dict(cfg)
+    n = c['n']
+    if c['via'] == 'func':
+        c['rows'] = int(ROWS[rng.integers(len(ROWS))])
+        c['dr'] = float(DRS[rng.integers(len(DRS))])
+    elif c['via'] == 'Transform':
+        iso = c['fam']['family'] != 'ring'
+        c['rows'] = 7 if (iso and rng.random() < 0.3) else 2 * n - 1
+        c['dr'] = float(DRS[rng.integers(len(DRS))])
+    else:
+        c['via'] = 'full' if rng.random() < 0.5 else 'Transform'
+        c['rows'] = 2 * n - 1
+        c['dr'] = 1.0
+    c['pass_dr'] = bool(rng.random() < 0.5)
+    return c
+
+
+# ---------------------------------------------------------------------------
+# refinement: the same distribution on successively finer grids
+# ---------------------------------------------------------------------------
+
+def scale_family(fam, k):
+    f = json.loads(json.dumps(fam))
+    if f['family'] == 'gauss':
+        f['terms'] = [[a, s * k] for a, s in f['terms']]
+    elif f['family'] == 'bump':
+        f['R'] *= k
+    else:
+        f['r0'], f['w'], f['Rm'] = f['r0'] * k, f['w'] * k, f['Rm'] * k
+    return f
+
+
+def refine_bases(method, opts, thorough=True):
+    """coarse configurations (name, n0, family in coarse pixels) whose physical
+    distribution is then sampled k times finer"""
+    if method in HALF_METHODS:
+        b = [dict(name='gauss6@26', n0=26, fam=gauss(6.0), via='func'),
+             dict(name='bump3@26', n0=26, fam=dict(family='bump', R=20.0, p=3), via='func')]
+        if thorough:
+            b.append(dict(name='gauss6+9@51', n0=51, fam=gauss2(6.0, 9.0), via='func'))
+        return b
+    b = [dict(name='gauss6@26', n0=26, fam=gauss(6.0), via='full')]
+    r = dict(name='ring2w6@51', n0=51, fam=ring(51, 6.0, 2), via='full')
+    if compatible(method, opts, r['fam']):
+        b.append(r)
+    return b
+
+
+def refine_chain(direction, method, opts, base, thorough):
+    """[(cfg, lo, hi)]: the same physical distribution, pixel size 1, 1/2, 1/4, ...;
+    lo/hi: the judged physical region of the *coarsest* grid"""
+    n0 = base['n0']
+    if n0 == 26:
+        ks = [1, 2, 4, 8, 12] if thorough else [1, 2, 4]
+    else:
+        ks = [1, 2, 4, 6] if thorough else [1, 2]
+    whole = method in FULL_METHODS
+    out = []
+    for k in ks:
+        n = (n0 - 1) * k + 1
+        c = dict(dir=direction, method=method, via=base['via'], opts=opts, fam=scale_family(base['fam'], k), n=n,
+                 rows=(2 * n - 1 if whole else 2), dr=(1.0 if whole else 1.0 / k), pass_dr=True)
+        # whole-image methods have no dr: their result is in pixel units and the
+        # error is relative to the peak, so only the region has to be rescaled
+        unit = k if whole else 1.0
+        out.append((c, AXIS_EXCL * unit, (n0 - 1 - edge(n0)) * unit))
+    return out
 
 
 # ---------------------------------------------------------------------------
